@@ -104,7 +104,7 @@ func (st *State) UseDebug() {
 //
 // Fails if bitindex is out of range.
 func (st *State) SetFlag(bitIndex uint32) bool {
-	if bitIndex+1 > st.BitSize {
+	if bitIndex >= st.BitSize {
 		panic(fmt.Sprintf("bit index %v is out of range of bitfield size %v", bitIndex, st.BitSize))
 	}
 	r := getFlag(bitIndex, st.Flags)
@@ -124,7 +124,7 @@ func (st *State) SetFlag(bitIndex uint32) bool {
 //
 // Fails if bitindex is out of range.
 func (st *State) ResetFlag(bitIndex uint32) bool {
-	if bitIndex+1 > st.BitSize {
+	if bitIndex >= st.BitSize {
 		panic(fmt.Sprintf("bit index %v is out of range of bitfield size %v", bitIndex, st.BitSize))
 	}
 	r := getFlag(bitIndex, st.Flags)
@@ -142,7 +142,7 @@ func (st *State) ResetFlag(bitIndex uint32) bool {
 //
 // Fails if bit field index is out of range.
 func (st *State) GetFlag(bitIndex uint32) bool {
-	if bitIndex+1 > st.BitSize {
+	if bitIndex >= st.BitSize {
 		panic(fmt.Sprintf("bit index %v is out of range of bitfield size %v", bitIndex, st.BitSize))
 	}
 	return getFlag(bitIndex, st.Flags)
